@@ -56,6 +56,15 @@ func VerifC19Evacuate() {
 		put(i, ts)
 	}
 
+	// a copy of the regular object on the last shard (never evacuated) that a
+	// partially applied engine removal has marked as garbage: still stored there,
+	// not served any more, and about to be collected
+	if hr != n-1 && vrt.Bool("markedCopyOfRegularOnLastShard") {
+		put(n-1, regular)
+		err := w.shards[n-1].MarkGarbage(regular.GetContainerID(), []oid.ID{regular.GetID()}, meta.GarbageMarkDefault)
+		vrt.Assume(err == nil)
+	}
+
 	// what is readable where before evacuation
 	objs := []*object.Object{regular, locked, lock, ts, removed}
 	before := make([][]bool, n)
